@@ -78,6 +78,11 @@ type C05Case struct {
 	Call     string     `json:"call,omitempty"` // WriteEntity (default), WriteHeaderAndEntity, WriteServiceError
 	// Split > 0: the ranges are sent as two Accept header lines, the second starting at range Split.
 	Split int `json:"split,omitempty"`
+	// BadQ: a range with a q-value that is not a number, to be inserted at position BadQPos for
+	// the trace on/off relation (how such a range is treated is not specified; that it is treated
+	// the same whether or not trace logging is enabled is)
+	BadQ    string `json:"bad_q,omitempty"`
+	BadQPos int    `json:"bad_q_pos,omitempty"`
 }
 
 func (r AccRange) qval() float64 {
@@ -217,6 +222,10 @@ func genC05(t *rapid.T) C05Case {
 			r.WS = rapid.SliceOfN(rapid.IntRange(0, 2), 1, 12).Draw(t, "ws")
 		}
 		c.Accept = append(c.Accept, r)
+	}
+	if rapid.IntRange(0, 3).Draw(t, "badq") == 0 {
+		c.BadQ = rapid.SampledFrom(c.Produces).Draw(t, "badqmedia") + ";q=" + rapid.SampledFrom([]string{"1e999", "abc", "-1e999", "0x1p-2", "", "1.0.0", "NaN", "Inf"}).Draw(t, "badqval")
+		c.BadQPos = rapid.IntRange(0, len(c.Accept)).Draw(t, "badqpos")
 	}
 	if splitDraw == 0 && len(c.Accept) >= 2 {
 		c.Split = rapid.IntRange(1, len(c.Accept)-1).Draw(t, "splitat")
@@ -394,6 +403,34 @@ func checkC05(c C05Case) (vs []*Violation) {
 		labels = append(labels, "two_accept_header_lines")
 		if !okA && !okB {
 			vs = append(vs, viol("", "Produces=%v, two Accept lines %q and %q: status %d Content-Type %q is neither the answer for the first line alone (admitted=%v type=%q) nor for the joined list (%q)", c.Produces, l1, l2, w.Code, got, admittedA, wantA, want))
+		}
+	}
+	if c.BadQ != "" && len(vs) == 0 && len(c.Accept) >= 1 {
+		// (with at least one well-formed range that decides the answer there is no fallback lookup
+		// over the whole header, whose outcome for malformed headers is not deterministic)
+		// metamorphic: trace logging on/off must not change the representation, whatever the header
+		parts := []string{}
+		for i, r := range c.Accept {
+			if i == c.BadQPos {
+				parts = append(parts, c.BadQ)
+			}
+			parts = append(parts, renderAccept([]AccRange{r}, true))
+		}
+		if c.BadQPos >= len(c.Accept) {
+			parts = append(parts, c.BadQ)
+		}
+		h := strings.Join(parts, ",")
+		req := model.ReqSpec{Method: "GET", Path: "/x", Headers: []model.H{{K: "Accept", V: h}}}
+		harness.SetTrace(false)
+		off := harness.Do(ct, rec, req, c.Via, "traceoff")
+		harness.SetTrace(true)
+		on := harness.Do(ct, rec, req, c.Via, "traceon")
+		harness.SetTrace(false)
+		a := strconv.Itoa(off.Status) + " " + strings.Join(off.Header["Content-Type"], "|")
+		b := strconv.Itoa(on.Status) + " " + strings.Join(on.Header["Content-Type"], "|")
+		labels = append(labels, "trace_relation_with_malformed_q")
+		if a != b || off.Panic != on.Panic {
+			vs = append(vs, viol("", "Produces=%v Accept=%q: answered {%s} with trace logging off and {%s} with trace logging on", c.Produces, h, a, b))
 		}
 	}
 	if len(seen) > 1 && len(vs) == 0 {
